@@ -435,12 +435,14 @@ def asyncVerdict (inp impl : Json) : Verdict :=
     let twice := calls.filter fun k => (seenOf k).length > 1
     let panicked := obs.contains "panic" || !isNull (field impl "panic")
     let inSpec := specSet.contains got
-    let holds := inSpec && wrongWaiter.isEmpty && wrongFin.isEmpty && twice.isEmpty && !panicked
+    let lost := obs.contains "stuck" || got.2.1.contains "stuck"
+    let holds := inSpec && wrongWaiter.isEmpty && wrongFin.isEmpty && twice.isEmpty && !panicked && !lost
     { agree := modelSet.contains got && modelSet == specSet && !early, holds := holds,
       nontrivial := !armable.isEmpty && steps.any (·.startsWith "w:"),
       model := toJson (modelSet.map fun v => v.1),
       cls := (if armable.isEmpty then "sync" else if modelSet.length > 1 then "async-several-outcomes" else "async-one-outcome"),
       why := if panicked then "setWireTrace ran twice for one call context (close of a closed channel)"
+        else if lost then "lost: the trace of a call whose completion was on its way (context done after the round trip began, body finished, round trip failed) was never handed over (waited 5 s)"
         else if !wrongWaiter.isEmpty then s!"an examination returned the trace of another call: {wrongWaiter}"
         else if !wrongFin.isEmpty then s!"a call's wrapper / Tracer slot holds the trace of another call: {wrongFin}"
         else if !twice.isEmpty then s!"calls {twice}: more than one trace handed over for one call: {twice.map seenOf}"
